@@ -99,17 +99,97 @@ func registryGlobal(w *World) *ssa.Global {
 			}
 		}
 	})
+	if g != nil {
+		return g
+	}
+	// ListSuites may hand the table to an iterator (maps.Keys): the registry is the package-level map from suite
+	// strings to configurations that ListSuites loads
+	EachInstr(f, func(in ssa.Instruction) {
+		if u, ok := in.(*ssa.UnOp); ok && u.Op == token.MUL {
+			if gg, ok := u.X.(*ssa.Global); ok {
+				if m, isMap := gg.Type().(*types.Pointer).Elem().Underlying().(*types.Map); isMap {
+					if nm, isNamed := m.Elem().(*types.Named); isNamed && nm.Obj().Name() == "SuiteConfig" {
+						g = gg
+					}
+				}
+			}
+		}
+	})
 	return g
 }
 
-func constName(l *Lit) string {
-	if l == nil {
-		return ""
+// registryEntryFromInit: the configuration the package initialiser stores under key name, for entries that are not
+// struct literals (built by a helper such as counterSuite(hash, digits, format)): the helper call is expanded with
+// its constant arguments; every field must fold to a constant.
+func registryEntryFromInit(w *World, tb *TB, name string) *Lit {
+	var out *Lit
+	for _, f := range w.ModuleFuncs(OtpPath) {
+		if !isInit(f) {
+			continue
+		}
+		EachInstr(f, func(in ssa.Instruction) {
+			mu, ok := in.(*ssa.MapUpdate)
+			if !ok || out != nil {
+				return
+			}
+			k, ok := mu.Key.(*ssa.Const)
+			if !ok || k.Value == nil || k.Value.Kind() != constant.String || constant.StringVal(k.Value) != name {
+				return
+			}
+			t := tb.Expand(tb.Of(mu.Value), 2)
+			if t.Op != "struct" {
+				return
+			}
+			l := &Lit{Kind: "struct", Fields: map[string]*Lit{}}
+			for i, fn := range strings.Split(t.Sym, ",") {
+				if i >= len(t.Args) {
+					return
+				}
+				a := t.Args[i]
+				for a.Op == "conv" && len(a.Args) == 1 {
+					a = a.Args[0]
+				}
+				var cv constant.Value
+				if !a.IsConst() {
+					// a comparison or sum of constants (IncludeChallenge: challenge != ChallengeNone) folds
+					v, ok := evalEnv(a, map[string]int64{})
+					if !ok || a.Op != "bin" {
+						return
+					}
+					switch a.Sym {
+					case "==", "!=", "<", "<=", ">", ">=":
+						cv = constant.MakeBool(v != 0)
+					default:
+						cv = constant.MakeInt64(v)
+					}
+					l.Fields[fn] = &Lit{Kind: "const", Const: cv}
+					continue
+				}
+				switch {
+				case a.Sym == "true" || a.Sym == "false":
+					cv = constant.MakeBool(a.Sym == "true")
+				case strings.HasPrefix(a.Sym, `"`):
+					u, err := unquote(a.Sym)
+					if err != nil {
+						return
+					}
+					cv = constant.MakeString(u)
+				default:
+					cv = constant.MakeFromLiteral(a.Sym, token.INT, 0)
+					if cv.Kind() != constant.Int {
+						return
+					}
+				}
+				l.Fields[fn] = &Lit{Kind: "const", Const: cv}
+			}
+			out = l
+		})
 	}
-	return fmt.Sprint(l.Const)
+	return out
 }
 
 func ruleRegistryFidelity(c *Check, w *World, rule string) map[string]*Lit {
+	tbR := NewTB(w)
 	g := registryGlobal(w)
 	if g == nil {
 		c.Fatal("anchor not found: the suite registry ranged over by ListSuites")
@@ -146,6 +226,11 @@ func ruleRegistryFidelity(c *Check, w *World, rule string) map[string]*Lit {
 		}
 		construct := "entry:" + name
 		v := lit.Elems[i]
+		if v == nil || v.Kind != "struct" {
+			if fromInit := registryEntryFromInit(w, tbR, name); fromInit != nil {
+				v = fromInit
+			}
+		}
 		if seenKey[name] {
 			c.Bad(rule, "otp."+g.Name(), construct, "duplicate registry key", pos)
 			continue
@@ -243,6 +328,13 @@ func ruleOneTable(c *Check, w *World, tb *TB, ef *Effects, rule string) {
 					x = y.X
 				case *ssa.Range:
 					x = y.X
+				case ssa.CallInstruction:
+					// handing the map to a read-only iterator of package maps reads it
+					if n := CalleeName(y.Common()); (n == "maps.Keys" || n == "maps.Values" || n == "maps.All") && len(y.Common().Args) == 1 {
+						x = y.Common().Args[0]
+					} else {
+						return
+					}
 				default:
 					return
 				}
